@@ -145,7 +145,7 @@ Fixpoint render (ls : list (list N * bool)) : list N :=
 
 Lemma drop_cr_rev_ne x r : x <> 13 -> drop_cr_rev (x :: r) = rev (x :: r).
 Proof.
-  intros Hx. unfold drop_cr_rev. destruct x as [|p]; [reflexivity|].
+  intros Hx. rewrite !drop_cr_rev_spec. destruct x as [|p]; [reflexivity|].
   do 4 (destruct p as [p|p|]; try reflexivity). congruence.
 Qed.
 
@@ -181,7 +181,7 @@ Proof.
   destruct e; cbn [eol].
   - replace (l ++ [13; 10] ++ render t) with ((l ++ [13]) ++ 10 :: render t) by (rewrite <- app_assoc; reflexivity).
     rewrite scan_aux_line.
-    + rewrite app_nil_r, rev_app_distr. cbn [rev app]. unfold drop_cr_rev. rewrite rev_involutive, IH. reflexivity.
+    + rewrite app_nil_r, rev_app_distr. cbn [rev app]. rewrite !drop_cr_rev_spec. rewrite rev_involutive, IH. reflexivity.
     + intros Hin. apply in_app_or in Hin. destruct Hin as [Hin|[Hin|[]]]; [contradiction|discriminate].
   - change (l ++ [10] ++ render t) with (l ++ 10 :: render t). rewrite scan_aux_line by exact Hn.
     rewrite app_nil_r, drop_cr_rev_ok by exact Hl. rewrite IH. reflexivity.
@@ -196,7 +196,7 @@ Proof.
   - cbn [render map fst] in *. destruct e; cbn [eol].
     + replace ((l0 ++ [13; 10] ++ render t) ++ l) with ((l0 ++ [13]) ++ 10 :: (render t ++ l)) by (rewrite <- !app_assoc; reflexivity).
       rewrite scan_aux_line.
-      * rewrite app_nil_r, rev_app_distr. cbn [rev app]. unfold drop_cr_rev. rewrite rev_involutive, IH. reflexivity.
+      * rewrite app_nil_r, rev_app_distr. cbn [rev app]. rewrite !drop_cr_rev_spec. rewrite rev_involutive, IH. reflexivity.
       * intros Hin. apply in_app_or in Hin. destruct Hin as [Hin|[Hin|[]]]; [contradiction|discriminate].
     + replace ((l0 ++ [10] ++ render t) ++ l) with (l0 ++ 10 :: (render t ++ l)) by (rewrite <- !app_assoc; reflexivity).
       rewrite scan_aux_line by exact Hn0. rewrite app_nil_r, drop_cr_rev_ok by exact Hl0. rewrite IH. reflexivity.
